@@ -39,8 +39,15 @@ inductive Cmd
   /-- a version registration (flush, compaction, keyspace creation): draw a seqno, then advance
       the shared visible seqno past it -/
   | register
-  /-- `rotate_memtable`: takes and releases the journal lock -/
+  /-- `rotate_memtable`: takes and releases the journal lock, then runs the tracker GC -/
   | rotate
+  /-- bulk ingestion (`Ingestion::finish`): under the journal lock, draw a seqno, register the
+      ingested tables with it, advance the visible seqno, run the tracker GC -/
+  | ingest (items : List Item)
+  /-- `SnapshotTracker::gc` (needs the GC lock exclusively: no `open` may be in progress) -/
+  | gc
+  /-- drop the thread's snapshot -/
+  | close
   deriving Repr, DecidableEq
 
 /-- what the holder of the journal mutex is doing -/
@@ -50,6 +57,8 @@ inductive LPhase
   | wDrawn (s : Nat) (done rest : List Item)  -- seqno drawn and journaled; `done` applied so far
   | wPublished
   | rLocked                                   -- `rotate_memtable`
+  | iLocked (items : List Item)               -- `Ingestion::finish` holds the lock
+  | iGc                                       -- ingested tables registered; tracker GC pending
   deriving Repr, DecidableEq
 
 /-- a thread's own position outside the journal critical section -/
@@ -57,6 +66,7 @@ inductive Phase
   | idle
   | sLoaded (v : Nat)             -- `open`: the counter was read, the floor not yet
   | gDrawn (s : Nat)              -- `upgrade_version`: seqno drawn, visible not yet advanced
+  | needGc                        -- after a memtable rotation: tracker GC pending
   deriving Repr, DecidableEq
 
 structure Thread where
@@ -100,6 +110,8 @@ structure State where
   obs : List Obs := []
   /-- ghost: history -/
   log : List Ev := []
+  /-- `lowest_freed_instant`: the GC watermark handed to flushes and compactions -/
+  wm : Nat := 0
   deriving Repr, DecidableEq
 
 def below (bound : Option Nat) (n : Nat) : Bool :=
@@ -138,24 +150,49 @@ structure Cfg where
 def setThread (s : State) (t : Tid) (th : Thread) : State :=
   { s with threads := s.threads.set t th }
 
-/-- a step of the holder of the journal mutex -/
-def lockedStep (s : State) (t : Tid) (th : Thread) : LPhase → State
-  | .wLocked items => { s with lock := some (t, .wFloored items), floor := some s.visible }
-  | .wFloored items =>
-    { s with lock := some (t, .wDrawn s.counter [] items), counter := s.counter + 1,
-             batches := s.batches ++ [(s.counter, items)] }
-  | .wDrawn sq done (it :: rest) =>
-    { s with lock := some (t, .wDrawn sq (done ++ [it]) rest), store := s.store ++ [it.entry sq],
-             log := s.log ++ [.applied t (it.entry sq)] }
-  | .wDrawn sq _ [] =>
-    { s with lock := some (t, .wPublished), visible := natMax s.visible (sq + 1), floor := none }
-  | .wPublished =>
-    { (setThread s t { th with prog := th.prog.tail }) with lock := none, log := s.log ++ [.ret t] }
-  | .rLocked => { (setThread s t { th with prog := th.prog.tail }) with lock := none }
-
 /-- the instant `open` hands out: it read the counter (`v`) first, the floor now -/
 def instantOf (cfg : Cfg) (s : State) (v : Nat) : Nat :=
   if cfg.useFloor then (match s.floor with | some f => if v ≤ f then v else f | none => v) else v
+
+/-- is some `open` in progress (holding the GC lock shared)? -/
+def loading (s : State) : Bool :=
+  s.threads.any fun th => match th.phase with | .sLoaded _ => true | _ => false
+
+def natMin (a b : Nat) : Nat := if a ≤ b then a else b
+
+def viewMin (acc : Nat) (th : Thread) : Nat :=
+  match th.view with
+  | some i => natMin acc i
+  | none => acc
+
+/-- `SnapshotTracker::gc`: the lowest instant still retained (a live snapshot's, else the instant a
+    new snapshot would get now) minus one becomes the watermark, never lowering it -/
+def gcWm (cfg : Cfg) (s : State) : Nat :=
+  let t := instantOf cfg s s.visible
+  let lowest := s.threads.foldl viewMin t
+  natMax s.wm (lowest - 1)
+
+/-- a step of the holder of the journal mutex; `none` = has to wait (for the GC lock) -/
+def lockedStep (cfg : Cfg) (s : State) (t : Tid) (th : Thread) : LPhase → Option State
+  | .wLocked items => some { s with lock := some (t, .wFloored items), floor := some s.visible }
+  | .wFloored items =>
+    some { s with lock := some (t, .wDrawn s.counter [] items), counter := s.counter + 1,
+                  batches := s.batches ++ [(s.counter, items)] }
+  | .wDrawn sq done (it :: rest) =>
+    some { s with lock := some (t, .wDrawn sq (done ++ [it]) rest), store := s.store ++ [it.entry sq],
+                  log := s.log ++ [.applied t (it.entry sq)] }
+  | .wDrawn sq _ [] =>
+    some { s with lock := some (t, .wPublished), visible := natMax s.visible (sq + 1), floor := none }
+  | .wPublished =>
+    some { (setThread s t { th with prog := th.prog.tail }) with lock := none, log := s.log ++ [.ret t] }
+  | .rLocked => some { (setThread s t { th with phase := .needGc }) with lock := none }
+  | .iLocked items =>
+    some { s with lock := some (t, .iGc), counter := s.counter + 1,
+                  batches := s.batches ++ [(s.counter, items)],
+                  store := s.store ++ items.map (Item.entry s.counter),
+                  visible := natMax s.visible (s.counter + 1),
+                  log := s.log ++ items.map (fun it => Ev.applied t (it.entry s.counter)) }
+  | .iGc => if loading s then none else some { s with lock := some (t, .wPublished), wm := gcWm cfg s }
 
 /-- a step of a thread that does not hold the journal mutex -/
 def freeStep (cfg : Cfg) (s : State) (t : Tid) (th : Thread) : Option State :=
@@ -175,6 +212,17 @@ def freeStep (cfg : Cfg) (s : State) (t : Tid) (th : Thread) : Option State :=
     match s.lock with
     | some _ => none
     | none => some { s with lock := some (t, .rLocked) }
+  | .needGc, _ =>
+    if loading s then none
+    else some { (setThread s t { th with phase := .idle, prog := th.prog.tail }) with wm := gcWm cfg s }
+  | .idle, .ingest items :: _ =>
+    match s.lock with
+    | some _ => none
+    | none => some { s with lock := some (t, .iLocked items), log := s.log ++ [.call t (.ingest items)] }
+  | .idle, .gc :: _ =>
+    if loading s then none
+    else some { (setThread s t { th with prog := th.prog.tail }) with wm := gcWm cfg s }
+  | .idle, .close :: _ => some (setThread s t { th with prog := th.prog.tail, view := none })
   | .idle, .snap :: _ =>
     some { (setThread s t { th with phase := .sLoaded s.visible }) with log := s.log ++ [.call t .snap] }
   | .idle, .read ks key :: _ =>
@@ -195,7 +243,7 @@ def stepT (cfg : Cfg) (s : State) (t : Tid) : Option State :=
   | none => none
   | some th =>
     match s.lock with
-    | some (h, ph) => if h = t then some (lockedStep s t th ph) else freeStep cfg s t th
+    | some (h, ph) => if h = t then lockedStep cfg s t th ph else freeStep cfg s t th
     | none => freeStep cfg s t th
 
 def step (cfg : Cfg) (s : State) (t : Tid) : State := (stepT cfg s t).getD s
